@@ -89,6 +89,30 @@ def gen_case(rng, tier):
     docs = [gen.place_flags(rng, d, p=rng.choice([0.15, 0.3, 0.45]), vocab=('prio', 'del'), on_seq_elems=False, combos=0.15) for d in docs]
     if rng.random() < 0.25 and len(docs) > 1:
         docs[-1] = gen.add_specials(rng, docs[-1], docs[:-1], p=0.2, kinds=('vdel',))
+    forced_sites = []
+    if rng.random() < 0.4:
+        # a list that inherits !merge / !del from an ancestor two or more levels up and meets a longer older list:
+        # flags handed down through untagged mappings are where flag-neutrality is most fragile
+        from .c16 import put
+        chain = [rng.choice(POOL) for _ in range(rng.choice([2, 3]))] + ['lst']
+        old = emit.L([emit.S(100 + i) for i in range(rng.randrange(2, 5))])
+        new = emit.L([emit.S(200 + i) for i in range(rng.randrange(1, 3))])
+        if rng.random() < 0.3:
+            new = emit.L([emit.M([['q', emit.S(7)]])])
+            old = emit.L([emit.M([['r', emit.S(8)]]), emit.S(9)])
+        d_old, d_new = emit.M([]), emit.M([])
+        put(d_old, tuple(chain), old)
+        put(d_new, tuple(chain), new)
+        top = dict((k, v) for k, v in d_new['items'])[chain[0]]
+        top['del'] = rng.choice([False, False, True])
+        docs = [d_old] + docs + [d_new] if rng.random() < 0.5 else docs[:1] + [d_old] + docs[1:] + [d_new]
+        # the mappings between the tagged ancestor and the list are the interesting marker sites
+        idx = len(docs) - 1
+        pos = {id(n): i for i, (_, n) in enumerate(emit.walk(docs[idx]))}
+        cur = docs[idx]
+        for c in chain[:-1]:
+            cur = dict((k, v) for k, v in cur['items'])[c]
+            forced_sites.append((idx, pos[id(cur)]))
     style = rng.choice(['flow', 'block'])
     E = lambda d: emit.emit(d, style)
     base = [E(d) for d in docs]
@@ -104,6 +128,7 @@ def gen_case(rng, tier):
         sites += [(di, i) for i in idxs]
     if len(sites) > 10:
         sites = rng.sample(sites, 10)
+    sites = forced_sites + [x for x in sites if x not in forced_sites]
     for flag in ('unsafe', 'new'):
         rel['mark_' + flag] = [[E(mark(d, i, flag)) if k == di else base[k] for k, d in enumerate(docs)] for di, i in sites]
     ntags = sum(1 for d in docs for _, x in emit.walk(d) if emit.has_flags(x))
